@@ -277,20 +277,24 @@ def _all_combos():
     return out
 
 
-def shards(tier):
+def shards(tier, seed=1):
+    from vlib.pbt import rot
+
     out = []
     if tier == "quick":
-        for fam, op, t, d in _COMBOS_QUICK:
-            out.append({"check": "congruence", "fam": fam, "op": op, "tshape": t, "dshape": d, "examples": 12, "budget_s": 150, "threads": 1})
-        out.append({"check": "prolongation", "fam": "laplace", "op": "V", "kinds": ["DP0"], "examples": 4, "budget_s": 150, "threads": 1})
-        out.append({"check": "prolongation", "fam": "laplace", "op": "W", "kinds": ["P1"], "examples": 4, "budget_s": 150, "threads": 1})
-        out.append({"check": "prolongation", "fam": "maxwell", "op": "E", "kinds": ["RWG"], "examples": 3, "budget_s": 150, "threads": 1})
+        combos = rot(_all_combos(), seed, 3)
+        if not any(c[0] == "maxwell" for c in combos):
+            combos = combos[:2] + [("maxwell", "E" if seed % 2 else "M", "snc", "rwg")]
+        for fam, op, t, d in combos:
+            out.append({"check": "congruence", "fam": fam, "op": op, "tshape": t, "dshape": d, "examples": 12, "budget_s": 300})
+        fam, op, kinds = rot([("laplace", "V", ["DP0"]), ("laplace", "W", ["P1"]), ("laplace", "K", ["P1"])], seed, 1)[0]
+        out.append({"check": "prolongation", "fam": fam, "op": op, "kinds": kinds, "examples": 4, "budget_s": 300, "light": True})
     else:
         for fam, op, t, d in _all_combos():
-            out.append({"check": "congruence", "fam": fam, "op": op, "tshape": t, "dshape": d, "examples": 60, "budget_s": 900, "threads": 1})
+            out.append({"check": "congruence", "fam": fam, "op": op, "tshape": t, "dshape": d, "examples": 60, "budget_s": 1800})
         for fam, op, kinds in [("laplace", "V", ["DP0"]), ("laplace", "V", ["P1"]), ("laplace", "K", ["P1"]), ("laplace", "W", ["P1"]),
                                ("helmholtz", "V", ["DP0"]), ("helmholtz", "W", ["P1"]), ("maxwell", "E", ["RWG"]), ("maxwell", "M", ["RWG"])]:
-            out.append({"check": "prolongation", "fam": fam, "op": op, "kinds": kinds, "examples": 14, "budget_s": 1200, "threads": 1})
+            out.append({"check": "prolongation", "fam": fam, "op": op, "kinds": kinds, "examples": 14, "budget_s": 2400})
     return out
 
 
@@ -345,4 +349,7 @@ def strategy(spec):
 
 
 def required_labels(tier):
-    return ["congruence", "proper_support", "non_prefix_support", "different_supports", "prolongation", "refine"]
+    return ["congruence", "proper_support", "prolongation"] if tier == "quick" else [
+        "congruence", "proper_support", "non_prefix_support", "different_supports", "prolongation", "refine", "bary"]
+
+
